@@ -160,6 +160,12 @@ func (o *Oracle) Match(src engine.Value, S types.Type, got engine.Value, T types
 			return
 		}
 	}
+	if o.Spec != nil && o.Spec.SkipCopy && types.Identical(S, T) {
+		// skipCopySameType: no custom function serves this pair, so the value is passed through as it is
+		// (custom functions for pairs further inside are not consulted)
+		o.leaf(path, o.Identical(src, got), "identical types under skipCopySameType: the value must be passed through unchanged")
+		return
+	}
 	su, tu := S.Underlying(), T.Underlying()
 
 	// pointer shapes first (they apply before anything else)
